@@ -1106,6 +1106,10 @@ class Process(StateMachine, persistence.Savable, metaclass=ProcessStateMachineMe
         new_state = self._create_state_instance(
             process_states.ProcessState.EXCEPTED, exception=exception, trace_back=trace
         )
+        if self._closed:
+            # The failure comes from a termination hook that ran after the process was closed, which dropped the state
+            # event hooks: they are needed once more for entering the excepted state (setting the future, notifying)
+            self._setup_event_hooks()
         self.transition_to(new_state)
 
     def pause(self, msg_text: Optional[str] = None) -> Union[bool, futures.CancellableAction]:
